@@ -1,7 +1,7 @@
 (** Property C11 — ST-MOC serialisation round-trips in FITS, ASCII and JSON.  Statements only. *)
-From Coq Require Import List NArith.
+From Coq Require Import List NArith Permutation.
 From MOC.Base Require Import RangeSet.
-From MOC.Model Require Import Qty Query Build Repr Serial ST STSerial.
+From MOC.Model Require Import Qty Query Build Repr Serial ST STSerial AsciiCodec AsciiProofs.
 Import ListNotations.
 Open Scope N_scope.
 
@@ -32,14 +32,49 @@ Theorem C11_text_roundtrip : forall wt ws dt ds (X : stmoc) (C : list (list cell
   map (decode_elem_cells wt ws) C = X.
 Proof. exact st_text_roundtrip. Qed.
 
+(** ---- ASCII, character level (Model/AsciiCodec.v: moc2d_to_ascii_ivoa / moc2d_from_ascii_ivoa as written) ----
+    For every list of elements whose two parts are lists of well-formed pairwise disjoint cells / cell
+    ranges, every fold width, both notations, any two distinct prefix characters that are not document
+    characters: reading the written document gives the two depths and, element by element, the parts
+    (bucketed by depth and sorted by the reader); an element with an empty part is dropped, as the
+    reader does (a valid ST-MOC has none). *)
+Theorem C11_ascii_st_roundtrip : forall (sortf : qty -> list aelem -> list aelem),
+  (forall q l, Permutation (sortf q l) l) ->
+  forall q1 w1 q2 w2 p1 p2 d1 d2 fold ul, okw w1 -> okw w2 -> d1 <= max_depth q1 w1 -> d2 <= max_depth q2 w2 ->
+  char_ok p1 = false /\ is_trim_ws p1 = false -> char_ok p2 = false -> p1 <> p2 ->
+  forall l, Forall (st_ok q1 w1 q2 w2 d1 d2) l ->
+  st_from_ascii sortf q1 w1 q2 w2 p2 p1 (st_to_ascii p1 p2 d1 d2 fold ul l) =
+  StOk d1 d2 (filter keep (map (st_norm sortf q1 q2 d1 d2) l)).
+Proof. exact st_ascii_roundtrip. Qed.
+
+(** 't', 's' and 'f' are such characters *)
+Theorem C11_ascii_prefix_chars : forall p, In p [116; 115; 102] -> char_ok p = false /\ is_trim_ws p = false.
+Proof. exact prefix_chars_ok. Qed.
+
+(** the characters of a 1-D document never contain a prefix character *)
+Theorem C11_ascii_document_chars : forall dmax fold ul es, chars_ok (to_ascii dmax fold ul es).
+Proof. exact to_ascii_chars. Qed.
+
 Example C11_nonvacuous :
   let X := [([(0, 4); (6, 8)], [(1, 2)]); ([(8, 9)], [(0, 1); (5, 7)])] in
   encode2 128 X = [(128, 132); (134, 136); (1, 2); (136, 137); (0, 1); (5, 7)] /\
   decode2 128 (encode2 128 X) = X.
 Proof. split; reflexivity. Qed.
 
+Example C11_ascii_nonvacuous :
+  let l := [([ERange 60 6 8; ECell 61 100], [ERange 2 0 3; ECell 1 1]); ([ECell 61 200], [ECell 0 3])] in
+  Forall (st_ok Time 64 Hpx 64 61 4) l /\
+  st_from_ascii isort_e Time 64 Hpx 64 115 116 (st_to_ascii 116 115 61 4 (Some 10) false l) = StOk 61 4 l.
+Proof.
+  split; [|vm_compute; reflexivity].
+  repeat (constructor || split); vm_compute; try reflexivity; try discriminate.
+Qed.
+
 Print Assumptions C11_fits_rows_roundtrip.
 Print Assumptions C11_valid_indices_below_msb.
 Print Assumptions C11_declared_rows.
 Print Assumptions C11_bytes_roundtrip.
 Print Assumptions C11_text_roundtrip.
+Print Assumptions C11_ascii_st_roundtrip.
+Print Assumptions C11_ascii_prefix_chars.
+Print Assumptions C11_ascii_document_chars.
